@@ -9,6 +9,7 @@ import datetime
 import logging
 
 from dashlive.utils.date_time import from_isodatetime, to_iso_datetime
+from dashlive.utils.timezone import UTC
 from .dash_option import DashOption
 from .http_error import FailureCount, ManifestHttpError
 from .types import OptionUsage
@@ -54,6 +55,9 @@ def ast_from_string(value: str) -> datetime.datetime | str:
     if value is not None and not isinstance(value, datetime.datetime):
         # e.g. a time of day or a duration
         raise ValueError(f'Invalid availabilityStartTime "{value}"')
+    if value is not None and value.tzinfo is None:
+        # a date-time without a UTC offset is taken as UTC
+        value = value.replace(tzinfo=UTC())
     return value
 
 def ast_to_string(value: datetime.datetime | str | None) -> str:
